@@ -55,6 +55,7 @@ struct SeqAdapter : Adapter {
     if (op.name == "update") { long d = op.args[0]; l->update([d](T& t) { long v = decode<N>(t.b); fill<N>(t.b, v < 0 ? 4095 : v + d); }); return "ok"; }
     return "?";
   }
+  bool lock_free(const Case&, const OpSpec& op) override { return op.name == "load" && S > 1; }   // store/update take the lock; load with one slot waits for writers
   void teardown(std::vector<std::string>& out) override {
     T r = l->load();
     { xv::Quiet q; out.push_back("final " + std::to_string(decode<N>(r.b))); }
